@@ -92,6 +92,11 @@ pub struct Case {
     /// tracker itself), a restart rebuilds the handler from a copy of the store
     #[serde(default)]
     pub wire: bool,
+    /// streamed delivery: of every three blocks (by height) this many are delivered as streamed
+    /// blocks (BlockChunk + ExternalBlock proof) instead of compact filter proofs, when connected
+    /// and when disconnected; 0 = compact only
+    #[serde(default)]
+    pub stream: u8,
 }
 
 const AMTS: [u64; 3] = [10_000, 25_000, 400_000];
@@ -261,6 +266,8 @@ struct Run<'a> {
     /// wire delivery: blocks the best chain left, with the headers below them (the follower's
     /// chain source still serves them when the signer comes back from a restart on one of them)
     stale: Vec<(SimBlock, lightning_signer::chain::tracker::Headers)>,
+    /// of every three blocks this many are delivered streamed (API-level delivery only)
+    stream: u8,
 }
 
 fn chan_key(w: &World, ci: usize) -> String {
@@ -460,10 +467,14 @@ impl<'a> Run<'a> {
         let sb = self.sim.blocks.last().unwrap().clone();
         self.blocks_mined += 1;
         let node = self.w.node.clone();
+        let streamed = (self.sim.height() % 3) < self.stream as u32;
+        if streamed {
+            self.st.class("connect:streamed");
+        }
         let d = match self.pw.as_ref() {
             // the AddBlock handler persists the tracker itself
-            Some(pw) => wire_add(&pw.root, &sb.block, &sb.prev_filter_header, false, 0, &mut self.wlog),
-            None => self.w.txn(|| tracker_add(&node, &sb.block, false, 0)).0,
+            Some(pw) => wire_add(&pw.root, &sb.block, &sb.prev_filter_header, streamed, 97, &mut self.wlog),
+            None => self.w.txn(|| tracker_add(&node, &sb.block, streamed, 97)).0,
         };
         self.flush_wire_classes();
         match d {
@@ -487,9 +498,13 @@ impl<'a> Run<'a> {
         let sb = self.sim.blocks.last().unwrap().clone();
         let node = self.w.node.clone();
         let prev = self.sim.prev_headers();
+        let streamed = (self.sim.height() % 3) < self.stream as u32;
+        if streamed {
+            self.st.class("disconnect:streamed");
+        }
         let d = match self.pw.as_ref() {
-            Some(pw) => wire_remove(&pw.root, &sb.block, prev.clone(), false, 0, &mut self.wlog),
-            None => self.w.txn(|| tracker_remove(&node, &sb.block, prev.clone(), false, 0)).0,
+            Some(pw) => wire_remove(&pw.root, &sb.block, prev.clone(), streamed, 97, &mut self.wlog),
+            None => self.w.txn(|| tracker_remove(&node, &sb.block, prev.clone(), streamed, 97)).0,
         };
         self.flush_wire_classes();
         match d {
@@ -978,10 +993,10 @@ impl Prop for C15 {
             let mut ops = vec![Op::Open(spec(3, vec![])), forget(3)];
             ops.extend(close);
             ops.extend([Op::Bury { k: 0, rel: -1 }, Op::Heartbeat, Op::Restart, Op::Heartbeat, Op::Empty { n: 1 }, Op::Heartbeat, Op::NewStub { dbid: 3, peer: 2 }, Op::Restart, Op::NewStub { dbid: 2, peer: 1 }, Op::NewStub { dbid: 4, peer: 1 }]);
-            v.push(Case { ops, wire: false });
+            v.push(Case { ops, wire: false, stream: 0 });
         }
         // no forget request: survives any depth
-        v.push(Case { ops: vec![Op::Open(spec(2, vec![])), blk(vec![TxSel::Funding { c: 0 }]), blk(vec![TxSel::Mutual { c: 0, salt: 0 }]), Op::Bury { k: 0, rel: 2 }, Op::Heartbeat, Op::Restart, Op::Heartbeat], wire: false });
+        v.push(Case { ops: vec![Op::Open(spec(2, vec![])), blk(vec![TxSel::Funding { c: 0 }]), blk(vec![TxSel::Mutual { c: 0, salt: 0 }]), Op::Bury { k: 0, rel: 2 }, Op::Heartbeat, Op::Restart, Op::Heartbeat], wire: false, stream: 0 });
         // own commitment with an HTLC: main output, HTLC, second level swept one by one; the last sweep is reorged out
         v.push(Case {
             ops: vec![
@@ -1003,11 +1018,12 @@ impl Prop for C15 {
                 Op::Heartbeat,
             ],
             wire: false,
+            stream: 0,
         });
         // a stub is forgotten: its id and lower ones stay refused across a restart
-        v.push(Case { ops: vec![Op::NewStub { dbid: 3, peer: 1 }, forget(3), Op::NewStub { dbid: 3, peer: 1 }, Op::NewStub { dbid: 2, peer: 2 }, Op::Restart, Op::NewStub { dbid: 3, peer: 2 }, Op::NewStub { dbid: 1, peer: 1 }, Op::NewStub { dbid: 4, peer: 1 }], wire: false });
+        v.push(Case { ops: vec![Op::NewStub { dbid: 3, peer: 1 }, forget(3), Op::NewStub { dbid: 3, peer: 1 }, Op::NewStub { dbid: 2, peer: 2 }, Op::Restart, Op::NewStub { dbid: 3, peer: 2 }, Op::NewStub { dbid: 1, peer: 1 }, Op::NewStub { dbid: 4, peer: 1 }], wire: false, stream: 0 });
         // the same histories with wire delivery
-        let wired: Vec<Case> = v.iter().map(|c| Case { ops: c.ops.clone(), wire: true }).collect();
+        let wired: Vec<Case> = v.iter().map(|c| Case { ops: c.ops.clone(), wire: true, stream: 0 }).collect();
         v.extend(wired);
         v
     }
@@ -1045,6 +1061,7 @@ impl Prop for C15 {
             pw,
             wlog: WireLog::default(),
             stale: vec![],
+            stream: if case.wire { 0 } else { case.stream.min(3) },
         };
         let mut res = Ok(());
         for (i, op) in case.ops.iter().enumerate() {
@@ -1347,6 +1364,6 @@ fn strategy(tier: Tier) -> BoxedStrategy<Case> {
         25 => free_history(max_ops),
         15 => id_history(),
     ]
-    .prop_flat_map(|ops| prop::bool::weighted(0.3).prop_map(move |wire| Case { ops: ops.clone(), wire }))
+    .prop_flat_map(|ops| (prop::bool::weighted(0.3), prop_oneof![3 => Just(0u8), 1 => Just(1u8), 1 => Just(3u8)]).prop_map(move |(wire, stream)| Case { ops: ops.clone(), wire, stream: if wire { 0 } else { stream } }))
     .boxed()
 }
